@@ -277,7 +277,6 @@ func genHier(r *vh.Rng) *Hier {
 	return h
 }
 
-
 // genDeepHier: a tower of 6..9 backbone structs, each embedding the next one (by value or by pointer) next to
 // 1..3 sibling structs (some with an embedded child of their own); int fields and methods from the small shared
 // pools, so that names are found 5..9 levels deep, shadowed by shallower ones, or ambiguous between siblings.
@@ -481,10 +480,10 @@ type Site struct {
 type Prog struct {
 	Name    string   `json:"name"`
 	Hier    *Hier    `json:"hier,omitempty"`
-	Types   []string `json:"types"`   // evaluated together (forward references)
-	Decls   []string `json:"decls"`   // evaluated one by one before the sites (helper funcs, methods)
-	Late    []string `json:"late"`    // method declarations evaluated after the phase-0 sites
-	Vars    []string `json:"vars"`    // evaluated after all methods
+	Types   []string `json:"types"` // evaluated together (forward references)
+	Decls   []string `json:"decls"` // evaluated one by one before the sites (helper funcs, methods)
+	Late    []string `json:"late"`  // method declarations evaluated after the phase-0 sites
+	Vars    []string `json:"vars"`  // evaluated after all methods
 	Sites   []Site   `json:"sites"`
 	Comment string   `json:"comment,omitempty"`
 	// Pending: corpus program holding the exact input of a PROPOSED finding (fix or known-finding entry not yet
